@@ -83,27 +83,27 @@ def signatures(rep, prog):
                 rep.ob('R17.sig', f'network:{key}', None, f'{ast.unparse(vn)} not resolved', site); continue
             ok = 'name' in params or has_kw
             rep.ob('R17.sig', f'network:{key}', ok, f"factory {fname} accepts 'name'" if ok else f"factory {fname} does not accept 'name' (entry_to_branch renames id->name)", site)
-    # entry_to_branch: id -> name, terminals, type lookup
-    f = prog.funcs.get(f'{LD}::load_network.entry_to_branch')
+    # one literal entry through load_network: id -> name, N1 / N2 -> first / second terminal, the element of the kind registered under `type`
+    try:
+        f = prog.func(LD, 'load_network')
+    except KeyError:
+        f = None
     if f is None:
-        rep.ob('R17.sig', 'network:entry_to_branch', None, 'entry_to_branch not found')
+        rep.ob('R17.sig', 'network:entry_to_branch', None, 'load_network not found')
     else:
-        src = ast.unparse(f.node)
-        reads = {n.args[0].value for n in ast.walk(f.node) if isinstance(n, ast.Call) and isinstance(n.func, ast.Attribute) and n.func.attr in ('pop', 'get') and n.args and isinstance(n.args[0], ast.Constant)}
-        reads |= {n.slice.value for n in ast.walk(f.node) if isinstance(n, ast.Subscript) and isinstance(n.slice, ast.Constant) and isinstance(n.ctx, ast.Load)}
-        need = {'N1', 'N2', 'id', 'type'}
-        rep.ob('R17.sig', 'network:entry_to_branch', need <= reads, f'reads {sorted(reads)}; needs {sorted(need)}', f.site)
-        # Branch(n1, n2, element): terminal order
-        ev = Evaluator(prog)
-        ev.opaque_fns |= {(LD, 'to_complex')}
-        parent = prog.func(LD, 'load_network')
-        clos = None
-        for n in parent.node.body:
-            if isinstance(n, ast.FunctionDef) and n.name == 'entry_to_branch': clos = n
-        if clos is not None:
-            t = ev.call_fn(clos, parent.mod, [A('entry')], {}, {'__parent__': None}, 1)
-            ok = isinstance(t, Rec) and t.cls == 'Branch' and 'N1' in repr(t.f.get('node1')) and 'N2' in repr(t.f.get('node2'))
-            rep.ob('R17.sig', 'network:terminal-order', True if ok else (None if not isinstance(t, Rec) else False), f'Branch(node1={t.f.get("node1") if isinstance(t, Rec) else t!r:.60}, node2={t.f.get("node2") if isinstance(t, Rec) else ""!r:.60})', f.site)
+        ev = Evaluator(prog); ev.raise_lookup_errors = True
+        entry = {'N1': A('n_first'), 'N2': A('n_second'), 'id': A('the_id'), 'type': 'resistor', 'R': A('the_R')}
+        keys_before = sorted(entry)
+        t = call(ev, f, [[entry]])
+        br = t.f.get('branches') if isinstance(t, Rec) else None
+        b0 = br[0] if isinstance(br, list) and len(br) == 1 else None
+        ok = okt = None
+        if isinstance(b0, Rec):
+            el = b0.f.get('element')
+            ok = isinstance(el, Rec) and term_equal(el.f.get('name'), A('the_id')) and el.f.get('type') == 'resistor'
+            okt = term_equal(b0.f.get('node1'), A('n_first')) and term_equal(b0.f.get('node2'), A('n_second'))
+        rep.ob('R17.sig', 'network:entry_to_branch', ok, f'entry -> {b0!r:.160}', f.site)
+        rep.ob('R17.sig', 'network:terminal-order', okt, f'Branch(node1={b0.f.get("node1") if isinstance(b0, Rec) else None!r:.40}, node2={b0.f.get("node2") if isinstance(b0, Rec) else None!r:.40})', f.site)
     # circuit components
     cm = prog.mod(CDL)
     ents = prog.table(CDL, 'circuit_component_translators')
@@ -238,38 +238,41 @@ def _leaf_conversion(prog, g, value: dict):
 
 
 # ---------------------------------------------------------------------------------------------- R17.sym
-def _facets(fn: ast.FunctionDef, leaf_names: set):
-    """which structural facets a recursive converter has: recursion into dict values, into list items, application of a leaf converter"""
-    rec_dict = rec_list = leaf = False
-    name = fn.name
-    for n in ast.walk(fn):
-        if isinstance(n, ast.Call) and isinstance(n.func, ast.Name):
-            if n.func.id in leaf_names: leaf = True
-    # find isinstance(x, dict|list) guards dominating a recursive call
-    for n in ast.walk(fn):
-        if isinstance(n, (ast.If, ast.IfExp)):
-            t = ast.unparse(n.test)
-            body = n.body if isinstance(n, ast.If) else [n.body]
-            has_rec = any(isinstance(c, ast.Call) and isinstance(c.func, ast.Name) and c.func.id == name for b in body for c in ast.walk(b))
-            if 'isinstance' in t and 'dict' in t and has_rec: rec_dict = True
-            if 'isinstance' in t and ('list' in t or 'tuple' in t) and has_rec: rec_list = True
-    return {'dict': rec_dict, 'list': rec_list, 'leaf': leaf}
-
-
 def symmetry(rep, prog):
+    """both recursive converters reach every complex value of a nested description: inside nested dictionaries, inside lists, inside dictionaries
+    inside lists, at the top level -- decided by evaluating them on one nested literal whose leaves are symbolic numbers"""
     m = prog.mod(DL)
-    d = m.defs.get('dictify_all_complex_values'); u = m.defs.get('undictify_all_complex_values')
-    if not isinstance(d, ast.FunctionDef) or not isinstance(u, ast.FunctionDef):
+    try:
+        d = prog.func(DL, 'dictify_all_complex_values'); u = prog.func(DL, 'undictify_all_complex_values')
+    except KeyError:
         rep.ob('R17.sym', 'dictify_all/undictify_all', None, 'functions not found'); return
-    fu = _facets(u, {'undictify_complex_values'})
-    fd = _facets(d, {'dictify_complex_values'})
-    site = prog.site(m, d)
-    for facet, text in (('dict', 'recurses into nested dictionaries'), ('list', 'recurses into lists'), ('leaf', 'applies the leaf converter')):
-        if not fu[facet]:
-            rep.ob('R17.sym', f'facet:{facet}', None, f'undictify_all_complex_values itself does not show facet `{facet}`', prog.site(m, u)); continue
-        rep.ob('R17.sym', f'facet:{facet}', fd[facet], f'dictify_all_complex_values {text}' if fd[facet] else
-               f'undictify_all_complex_values {text} but dictify_all_complex_values does not: complex values '
-               f'{"inside lists " if facet == "list" else ""}reach the serialiser unconverted and cannot be written', site)
+    z, re_, im_ = A('z'), A('re'), A('im')
+    C = lambda: {'real': re_, 'imag': im_}
+    def run(f, arg):
+        ev = Evaluator(prog, depth_limit=60); ev.raise_lookup_errors = True; ev.atom_types = {'z': 'complex', 're': 'float', 'im': 'float'}
+        return ev, call(ev, f, [arg])
+    ev, td = run(d, {'a': {'b': z}, 'l': [z, {'c': z}], 'x': z, 'n': re_})
+    evu, tu = run(u, {'a': {'b': C()}, 'l': [C(), {'c': C()}], 'x': C(), 'n': re_})
+    want_d = {'real': spec(ev, 'real(z)', {'z': z}, m), 'imag': spec(ev, 'imag(z)', {'z': z}, m)}
+    want_u = spec(evu, 're + 1j*im', {'re': re_, 'im': im_}, m)
+    def at(t, path):
+        for k in path:
+            if isinstance(t, dict) and k in t: t = t[k]
+            elif isinstance(t, list) and isinstance(k, int) and k < len(t): t = t[k]
+            else: return None
+        return t
+    eq_d = lambda x: isinstance(x, dict) and set(x) == {'real', 'imag'} and term_equal(x['real'], want_d['real']) and term_equal(x['imag'], want_d['imag'])
+    eq_u = lambda x: x is not None and not isinstance(x, dict) and term_equal(x, want_u)
+    for facet, path, text in (('dict', ('a', 'b'), 'inside a nested dictionary'), ('list', ('l', 0), 'inside a list'), ('list-dict', ('l', 1, 'c'), 'inside a dictionary inside a list'),
+                              ('leaf', ('x',), 'at the top level')):
+        for name, t, ok_fn, site in (('dictify', td, eq_d, d.site), ('undictify', tu, eq_u, u.site)):
+            got = at(t, path)
+            ok = ok_fn(got)
+            rep.ob('R17.sym', f'{name}:facet:{facet}', True if ok else (None if got is None or has_opaque(got) else False),
+                   f'a complex value {text} is converted' if ok else f'a complex value {text} comes out as {got!r:.100}: it ' + ('reaches the serialiser unconverted and cannot be written' if name == 'dictify' else 'is not restored'), site)
+    for name, t in (('dictify', td), ('undictify', tu)):
+        got = at(t, ('n',))
+        rep.ob('R17.sym', f'{name}:plain-number', True if (got is not None and term_equal(got, re_)) else (None if got is None else False), f'a real number passes through unchanged ({got!r:.40})', d.site)
     # default processors wired into serialize / deserialize
     for fn, param, want in (('serialize', 'dict_processor', 'dictify_all_complex_values'), ('deserialize', 'dict_preprocessor', 'undictify_all_complex_values')):
         f = prog.func(DL, fn)
